@@ -42,13 +42,16 @@ def find_span_binsearch(degree, knot_vector, num_ctrlpts, knot, **kwargs):
     # In The NURBS Book; number of knots = m + 1, number of control points = n + 1, p = degree
     # All knot vectors should follow the rule: m = p + n + 1
     n = num_ctrlpts - 1
-    # The tolerance is relative to the range of the knot vector (it is the range itself for the normalized knot vectors)
-    end_tol = tol * abs(knot_vector[-1] - knot_vector[0])
+    # The tolerance is relative to the range of the knot vectors which are defined on a range shorter than 1
+    end_tol = tol * min(1.0, abs(knot_vector[-1] - knot_vector[0]))
     if abs(knot_vector[n + 1] - knot) <= end_tol:
         # Skip zero-length spans at the end of the domain (unclamped knot vectors)
-        while n > degree and knot_vector[n] == knot_vector[n + 1]:
-            n -= 1
-        return n
+        nend = n
+        while nend > degree and knot_vector[nend] == knot_vector[nend + 1]:
+            nend -= 1
+        # The parameter can be in a knot span before the last one if there is a knot very close to the end of the domain
+        if knot >= knot_vector[nend]:
+            return nend
 
     # Set max and min positions of the array to be searched
     low = degree
@@ -137,8 +140,8 @@ def find_multiplicity(knot, knot_vector, **kwargs):
     # Get tolerance value
     tol = kwargs.get('tol', 10e-8)
 
-    # The tolerance is relative to the range of the knot vector (it is the range itself for the normalized knot vectors)
-    tol *= abs(knot_vector[-1] - knot_vector[0])
+    # The tolerance is relative to the range of the knot vectors which are defined on a range shorter than 1
+    tol *= min(1.0, abs(knot_vector[-1] - knot_vector[0]))
 
     mult = 0  # initial multiplicity
 
@@ -878,7 +881,7 @@ def knot_refinement(degree, knotvector, ctrlpts, **kwargs):
     """
     # Get keyword arguments
     tol = kwargs.get('tol', 10e-8)  # tolerance value for zero equality checking
-    tol *= abs(knotvector[-1] - knotvector[0])  # knot differences are compared: relative to the range of the knot vector
+    tol *= min(1.0, abs(knotvector[-1] - knotvector[0]))  # knot differences are compared: relative to a range shorter than 1
     check_num = kwargs.get('check_num', True)  # enables/disables input validity checking
     knot_list = kwargs.get('knot_list', knotvector[degree:-degree])
     add_knot_list = kwargs.get('add_knot_list', list())
